@@ -117,6 +117,16 @@ def run(ctx):
     ctx.equiv("R12.2", "charnock_roughness_length", r,
               alpha * u**2 / g2 + op("where", CMP("gt", u, sp.Integer(0)), cv * nu / u, sp.Integer(0)), fch.loc(), interp=it)
     ctx.absorb(it)
+    # ---- R12.6 direction bin widths and directional integration of the 2-D class (shared with C02)
+    from .c02 import direction_rules as _dir_rules
+    with ctx.renamed({"R02.1": "R12.6", "R02.2": "R12.6", "R02.3": "R12.6"}):
+        _dir_rules(ctx)
+    ctx.require_count("R12.6", 8)
+    # ---- R12.7 no unsynchronised derived state on the objects this property queries (shared rule, see statecache.py)
+    from ..statecache import instance_memo_rule as _memo, positive_example as _memo_pos
+    _memo(ctx, "R12.7", [p.get_class("wavespectra.spectrum.FrequencySpectrum"), p.get_class("wavespectra.spectrum.FrequencyDirectionSpectrum")], "spectrum classes")
+    _memo_pos(ctx, "R12.7")
+    ctx.require_count("R12.7", 2)
     ctx.require_count("R12.1", 2)
     ctx.require_count("R12.2", 16)
     ctx.require_count("R12.3", 3)
